@@ -368,6 +368,10 @@ def _parse_color_true(desc: str) -> int | None:
     if not desc.startswith("#"):
         return None
 
+    if not all(digit in "0123456789abcdefABCDEF" for digit in desc[1:]):
+        # int() also accepts signs, blanks and underscores
+        return None
+
     try:
         if len(desc) == 7:
             h = desc[1:]
@@ -453,6 +457,10 @@ def _parse_color_256(desc: str) -> int | None:
 
 def _true_to_256(desc: str) -> str | None:
     if not (desc.startswith("#") and len(desc) == 7):
+        return None
+
+    if not all(digit in "0123456789abcdefABCDEF" for digit in desc[1:]):
+        # int() also accepts signs, blanks and underscores
         return None
 
     try:
